@@ -1,10 +1,239 @@
 import KawinV.Proto
-/-! driver verbs for C16 (stub: no verbs yet) -/
+import KawinV.Gen.C16Elastic
+import KawinV.Model.Elastic
+/-! driver verbs for C16: generated ElasticFactors formulas and the KawinV.Elastic model (Float instance) -/
 namespace KawinV.Drv.C16
-open KawinV.Proto
+open KawinV.Proto KawinV.Gen.C16 KawinV.Elastic
+
+/-! ### arrays <-> index functions -/
+def t2Of (a : Array Float) : T2 Float := fun i j => a.getD (3 * i.val + j.val) 0.0
+def t4Of (a : Array Float) : T4 Float := fun i j k l => a.getD (27 * i.val + 9 * j.val + 3 * k.val + l.val) 0.0
+def m6Of (a : Array Float) : M6 Float := fun i j => a.getD (6 * i.val + j.val) 0.0
+def v3Of (a : Array Float) : V3 Float := fun i => a.getD i.val 0.0
+def v6Of (a : Array Float) : V6 Float := fun i => a.getD i.val 0.0
+
+def f3 : List (Fin 3) := List.finRange 3
+def f6 : List (Fin 6) := List.finRange 6
+def l2 (t : T2 Float) : List Float := f3.flatMap fun i => f3.map fun j => t i j
+def l4 (t : T4 Float) : List Float :=
+  f3.flatMap fun i => f3.flatMap fun j => f3.flatMap fun k => f3.map fun l => t i j k l
+def l6 (t : M6 Float) : List Float := f6.flatMap fun i => f6.map fun j => t i j
+def lv6 (t : V6 Float) : List Float := f6.map t
+
+/-- evaluate every entry once -/
+def memo2 (t : T2 Float) : T2 Float := t2Of (l2 t).toArray
+def memo4 (t : T4 Float) : T4 Float := t4Of (l4 t).toArray
+def memo6 (t : M6 Float) : M6 Float := m6Of (l6 t).toArray
+
+/-! ### np.linalg.inv of a 6x6 array: Gauss–Jordan with partial pivoting -/
+def gaussJordan (n : Nat) (a : Array (Array Float)) : Array (Array Float) := Id.run do
+  let mut m : Array (Array Float) := Array.ofFn (n := n) fun i =>
+    (a.getD i.val #[]) ++ Array.ofFn (n := n) fun j => if i.val = j.val then 1.0 else 0.0
+  for k in [0:n] do
+    let mut piv := k
+    for i in [k+1:n] do
+      if Float.abs ((m.getD i #[]).getD k 0.0) > Float.abs ((m.getD piv #[]).getD k 0.0) then piv := i
+    let rk := m.getD piv #[]
+    let rp := m.getD k #[]
+    m := (m.setIfInBounds piv rp).setIfInBounds k rk
+    let p := rk.getD k 0.0
+    let rk := rk.map (· / p)
+    m := m.setIfInBounds k rk
+    for i in [0:n] do
+      if i != k then
+        let ri := m.getD i #[]
+        let f := ri.getD k 0.0
+        m := m.setIfInBounds i (Array.zipWith (fun x y => x - f * y) ri rk)
+  return m.map fun r => r.extract n (2 * n)
+
+def inv6 (c : M6 Float) : M6 Float :=
+  let a : Array (Array Float) := Array.ofFn (n := 6) fun i => Array.ofFn (n := 6) fun j => c i j
+  let r := gaussJordan 6 a
+  fun i j => (r.getD i.val #[]).getD j.val 0.0
+
+def inv4 : T4 Float → T4 Float := fun c => memo4 (invert4 inv6 mandelVec c)
+
+/-! ### generated definitions -/
+def pairFn : Nat → Option (Float → Float → List Float)
+  | 0 => some moduli_E_nu_all | 1 => some moduli_E_G_all | 2 => some moduli_E_lam_all
+  | 3 => some moduli_E_K_all | 4 => some moduli_E_M_all | 5 => some moduli_nu_G_all
+  | 6 => some moduli_nu_lam_all | 7 => some moduli_nu_K_all | 8 => some moduli_nu_M_all
+  | 9 => some moduli_G_lam_all | 10 => some moduli_G_K_all | 11 => some moduli_G_M_all
+  | 12 => some moduli_lam_K_all | 13 => some moduli_lam_M_all | 14 => some moduli_K_M_all
+  | _ => none
+
+/-- el.gen.moduli pair a b → s11 s12 s44 -/
+def genModuli : P String := do
+  let k ← nat; let a ← flt; let b ← flt
+  match pairFn k with
+  | some f => pure (flist (f a b))
+  | none => failure
+
+/-- el.gen.khach c11 c12 c44 eps I1 I2 r0 r1 r2 e0 → khachaturyan khach_sphere khach_cube constant_energy -/
+def genKhach : P String := do
+  let c11 ← flt; let c12 ← flt; let c44 ← flt; let e ← flt; let i1 ← flt; let i2 ← flt
+  let r0 ← flt; let r1 ← flt; let r2 ← flt; let e0 ← flt
+  pure (flist [khachaturyan c11 c12 c44 e i1 i2 r0 r1 r2, khach_sphere c11 c12 c44 e r0 r1 r2,
+               khach_cube c11 c12 c44 e r0 r1 r2, constant_energy e0 r0 r1 r2])
+
+/-- el.gen.inv3 m(9) → generated quickInverse (9) | model cramer3 (9) -/
+def genInv3 : P String := do
+  let m ← flts
+  let a := m.toArray
+  let g (k : Nat) := a.getD k 0.0
+  pure (flist (quickInverse_all (g 0) (g 1) (g 2) (g 3) (g 4) (g 5) (g 6) (g 7) (g 8)) ++ " " ++
+        flist (l2 (cramer3 (t2Of a))))
+
+/-- el.gen.beta a b c phi theta → beta, n0 n1 n2, model betaN at that normal -/
+def genBeta : P String := do
+  let a ← flt; let b ← flt; let c ← flt; let ph ← flt; let th ← flt
+  let n := nvec_all ph th
+  pure (flist ([beta a b c ph th] ++ n ++ [betaN (v3Of #[a, b, c]) (v3Of n.toArray)]))
+
+/-! ### tensor utilities -/
+/-- el.conv6 c6(36) → convert2To4 (81) | convert4To2 of it (36) -/
+def conv6 : P String := do
+  let c ← flts
+  let c4 := memo4 (convert2To4 (m6Of c.toArray))
+  pure (flist (l4 c4) ++ " " ++ flist (l6 (convert4To2 c4)))
+
+/-- el.conv4 c4(81) → convert4To2 (36) | convert2To4 of it (81) -/
+def conv4 : P String := do
+  let c ← flts
+  let c2 := memo6 (convert4To2 (t4Of c.toArray))
+  pure (flist (l6 c2) ++ " " ++ flist (l4 (convert2To4 c2)))
+
+/-- el.vec v(6) t(9) → vecTo2 v (9) | rank2ToVec t (6) -/
+def vec : P String := do
+  let v ← flts; let t ← flts
+  pure (flist (l2 (vecTo2 (v6Of v.toArray))) ++ " " ++ flist (lv6 (rank2ToVec (t2Of t.toArray))))
+
+/-- el.rot r(9) t4(81) t2(9) → rotate4 (81) | rotate2 (9) -/
+def rot : P String := do
+  let r ← flts; let a ← flts; let b ← flts
+  let r := t2Of r.toArray
+  pure (flist (l4 (rotate4 r (t4Of a.toArray))) ++ " " ++ flist (l2 (rotate2 r (t2Of b.toArray))))
+
+/-- el.ec c11 c12 c44 → elasticConstantToC (36) -/
+def ec : P String := do
+  let a ← flt; let b ← flt; let c ← flt
+  pure (flist (l6 (elasticConstantToC a b c)))
+
+/-- el.moduliC E nu G lam K M (each a double or `none`) → T c6(36) | F -/
+def moduliC : P String := do
+  let E ← optFlt; let nu ← optFlt; let G ← optFlt; let lam ← optFlt; let K ← optFlt; let M ← optFlt
+  match moduliToC E nu G lam K M with
+  | some c => pure ("T " ++ flist (l6 c))
+  | none => pure "F"
+
+/-- el.inv4 c4(81) → invert4 (repaired, 81) | invert4Old (81) -/
+def inv4v : P String := do
+  let c ← flts
+  let c4 := t4Of c.toArray
+  pure (flist (l4 (inv4 c4)) ++ " " ++ flist (l4 (invert4Old inv6 c4)))
+
+/-! ### Eshelby energy on given nodes -/
+/-- el.energy phi(n) theta(n) w(n) dA r(3) cM4(81) cP4(81) eig(9)
+    → S (81) | energyEllipsoid energyBohm V -/
+def energy : P String := do
+  let ph ← flts; let th ← flts; let w ← flts; let dA ← flt
+  let r ← flts; let cM ← flts; let cP ← flts; let e ← flts
+  let nodes : List (QNode Float) := (ph.zip (th.zip w)).map fun (p, t, w) =>
+    { n := v3Of (nvec_all p t).toArray, w := w }
+  let r := v3Of r.toArray
+  let cM := t4Of cM.toArray; let cP := t4Of cP.toArray; let eig := t2Of e.toArray
+  let D := memo4 (Dijkl (ohmOf cM) betaN nodes dA r)
+  let S := memo4 (Sijmn cM D)
+  let V := volume r
+  pure (flist (l4 S) ++ " " ++
+        flist [energyEllipsoid cM S eig V, energyBohm inv4 cM cP S eig V, V])
+
+/-! ### setter sequences -/
+def descOf : Nat → Option Desc
+  | 0 => some .constant | 1 => some .sphere | 2 => some .cube | 3 => some .ellipsoid | _ => none
+def descNat : Desc → Nat
+  | .constant => 0 | .sphere => 1 | .cube => 2 | .ellipsoid => 3
+
+def pdesc : P Desc := do
+  let k ← nat
+  match descOf k with
+  | some d => pure d
+  | none => failure
+
+def pm6 : P (M6 Float) := do let c ← flts; pure (m6Of c.toArray)
+def pt4 : P (T4 Float) := do let c ← flts; pure (t4Of c.toArray)
+def pt2 : P (T2 Float) := do let c ← flts; pure (t2Of c.toArray)
+def pv3 : P (V3 Float) := do let c ← flts; pure (v3Of c.toArray)
+
+def pop : P (Op Float) := do
+  let code ← nat
+  match code with
+  | 0 => do let d ← pdesc; pure (.setShape d)
+  | 1 => do let e ← flt; pure (.setConstantEnergy e)
+  | 2 => do let c ← pm6; pure (.setElasticTensor6 c)
+  | 3 => do let c ← pt4; pure (.setElasticTensor4 c)
+  | 4 => do let a ← flt; let b ← flt; let c ← flt; pure (.setElasticConstants a b c)
+  | 5 => do
+    let E ← optFlt; let nu ← optFlt; let G ← optFlt; let lam ← optFlt; let K ← optFlt; let M ← optFlt
+    pure (.setModuli E nu G lam K M)
+  | 6 => do let c ← pm6; pure (.setPrecTensor6 c)
+  | 7 => do let c ← pt4; pure (.setPrecTensor4 c)
+  | 8 => do let a ← flt; let b ← flt; let c ← flt; pure (.setPrecConstants a b c)
+  | 9 => do
+    let E ← optFlt; let nu ← optFlt; let G ← optFlt; let lam ← optFlt; let K ← optFlt; let M ← optFlt
+    pure (.setPrecModuli E nu G lam K M)
+  | 10 => do let r ← pt2; pure (.setRotation r)
+  | 11 => do let r ← pt2; pure (.setRotationPrec r)
+  | 12 => do let e ← flt; pure (.setEigScalar e)
+  | 13 => do let e ← pv3; pure (.setEigVec e)
+  | 14 => do let e ← pt2; pure (.setEigMat e)
+  | 15 => do let e ← flt; pure (.setStressScalar e)
+  | 16 => do let e ← pv3; pure (.setStressVec e)
+  | 17 => do let e ← pt2; pure (.setStressMat e)
+  | _ => failure
+
+def memoState (s : State Float) : State Float :=
+  { s with cM := memo4 s.cM, cP := memo4 s.cP, rot := memo2 s.rot, rotP := memo2 s.rotP,
+           stress0 := memo2 s.stress0, eig := memo2 s.eig,
+           p := { cM4 := memo4 s.p.cM4, cM2 := memo6 s.p.cM2, cP4 := memo4 s.p.cP4, cP2 := memo6 s.p.cP2,
+                  stress := memo2 s.p.stress, strain := memo2 s.p.strain } }
+
+/-- `compute` for one radius triple with a Khachaturyan / constant description -/
+def computeSimple (s : State Float) (r : V3 Float) : Float :=
+  match s.desc with
+  | .constant => constant_energy s.constE (r 0) (r 1) (r 2)
+  | .sphere => khach_sphere (s.p.cM2 0 0) (s.p.cM2 0 1) (s.p.cM2 3 3) (s.eig 0 0) (r 0) (r 1) (r 2)
+  | .cube => khach_cube (s.p.cM2 0 0) (s.p.cM2 0 1) (s.p.cM2 3 3) (s.eig 0 0) (r 0) (r 1) (r 2)
+  | .ellipsoid => 0.0 / 0.0
+
+/-- el.seq desc0 nops op… r(3)
+    → flags(nops as T/F string) desc cM4(81) cM2(36) cP4(81) cP2(36) stress(9) strain(9) eig(9) energy -/
+def seq : P String := do
+  let d ← pdesc
+  let ops ← lst pop
+  let r ← pv3
+  let (s, flags) := ops.foldl (fun (acc : State Float × String) op =>
+      let (s', ok) := step inv6 acc.1 op
+      (memoState s', acc.2 ++ bstr ok)) ((init d : State Float), "x")
+  pure (s!"{flags} {descNat s.desc} " ++ flist (l4 s.p.cM4) ++ " " ++ flist (l6 s.p.cM2) ++ " " ++
+        flist (l4 s.p.cP4) ++ " " ++ flist (l6 s.p.cP2) ++ " " ++ flist (l2 s.p.stress) ++ " " ++
+        flist (l2 s.p.strain) ++ " " ++ flist (l2 s.eig) ++ " " ++ fout (computeSimple s r))
 
 def handle (verb : String) : Option (P String) :=
   match verb with
+  | "el.gen.moduli" => some genModuli
+  | "el.gen.khach" => some genKhach
+  | "el.gen.inv3" => some genInv3
+  | "el.gen.beta" => some genBeta
+  | "el.conv6" => some conv6
+  | "el.conv4" => some conv4
+  | "el.vec" => some vec
+  | "el.rot" => some rot
+  | "el.ec" => some ec
+  | "el.moduliC" => some moduliC
+  | "el.inv4" => some inv4v
+  | "el.energy" => some energy
+  | "el.seq" => some seq
   | _ => none
 
 end KawinV.Drv.C16
